@@ -141,7 +141,7 @@ macro_rules! rt_harness {
 // C11: one call of run_n_steps(budget), two threads, symbolic scripts and budget.
 rt_harness! {
     #[kani::unwind(10)]
-    fn c11_status_truthful_two_threads() {
+    fn x_sched_status_truthful_two_threads() {
         sym_scripts(false);
         let budget: u32 = kani::any();
         kani::assume(budget <= 4);
@@ -206,7 +206,7 @@ rt_harness! {
 // C10 (scheduler layer): slicing a budget in two gives the same step sequence and status.
 rt_harness! {
     #[kani::unwind(10)]
-    fn c10_budget_split_equivalent() {
+    fn x_sched_budget_split_equivalent() {
         sym_scripts(true);
         let b1: u32 = kani::any();
         let b2: u32 = kani::any();
@@ -249,8 +249,8 @@ rt_harness! {
 
 // C11: top() is the last value pushed by main, also after it moved to finished_main_thread
 rt_harness! {
-    #[kani::unwind(10)]
-    fn c11_top_after_done() {
+    #[kani::unwind(4)]
+    fn x_sched_top_after_done() {
         unsafe {
             SCRIPT[0] = [OUT_CONTINUE, OUT_DONE, 0, 0];
             SCRIPT[1] = [OUT_CONTINUE; SCRIPT_LEN];
